@@ -178,30 +178,22 @@ fn check_inner(h: &History, st: &mut Stats) -> Result<(), (String, String)> {
         if (dasr & 0x40 != 0) != m.j1 || (dasr & 0x80 != 0) != m.j2 {
             return fail("jumper-bits", format!("J1/J2 bits {}/{}, expected {}/{}", dasr & 0x40 != 0, dasr & 0x80 != 0, m.j1, m.j2));
         }
-        // comparators (f32 evaluation; unconstrained within 1e-6 of a threshold that is not exactly representable)
-        let cmp = |ain: f32, byte: u8| -> Option<bool> {
-            let th = byte as f32 / 100.0;
-            if (ain - th).abs() <= 1e-6 && byte % 25 != 0 {
-                None
-            } else {
-                Some(ain > th)
-            }
-        };
-        match cmp(m.a1, m.d1) {
-            Some(c) => {
-                if (dasr & 0x08 != 0) != c {
-                    return fail("comparator1", format!("CP1 bit {} with input {} V and DAC byte {}", dasr & 0x08 != 0, m.a1, m.d1));
-                }
-            }
-            None => st.unconstrained_comparator += 1,
+        // comparators: exactly "input exceeds the DAC voltage", where the DAC voltage is the one the board
+        // itself reports (checked above to be b/100 within 1e-4).  No tolerance band: both sides are
+        // observables of the board, so the comparison does not depend on how b/100 is rounded.
+        // (A first version left |input - b/100| <= 1e-6 unconstrained; a seeded change that computes the
+        // threshold one ulp below the reported DAC voltage showed that this gave away the diagonal.)
+        let c1 = m.a1 > b.analog_outputs()[0];
+        if (dasr & 0x08 != 0) != c1 {
+            return fail("comparator1", format!("CP1 bit {} with input {:?} V and reported DAC voltage {:?} V (byte {})", dasr & 0x08 != 0, m.a1, b.analog_outputs()[0], m.d1));
         }
-        match cmp(m.temp.max(m.a2), m.d2) {
-            Some(c) => {
-                if (dasr & 0x10 != 0) != c {
-                    return fail("comparator2", format!("CP2 bit {} with input max({}, {}) V and DAC byte {}", dasr & 0x10 != 0, m.temp, m.a2, m.d2));
-                }
-            }
-            None => st.unconstrained_comparator += 1,
+        let in2 = m.temp.max(m.a2);
+        let c2 = in2 > b.analog_outputs()[1];
+        if (dasr & 0x10 != 0) != c2 {
+            return fail("comparator2", format!("CP2 bit {} with input max({:?}, {:?}) V and reported DAC voltage {:?} V (byte {})", dasr & 0x10 != 0, m.temp, m.a2, b.analog_outputs()[1], m.d2));
+        }
+        if m.a1 == b.analog_outputs()[0] || in2 == b.analog_outputs()[1] {
+            st.unconstrained_comparator += 1; // counter reused: comparator evaluated exactly on the diagonal
         }
         if (pre_dasr ^ dasr) & 0x18 != 0 {
             st.comp_cross = true;
@@ -282,7 +274,7 @@ pub fn run(ctx: &Ctx) -> Evidence {
         "exploration",
         "proptest histories (<= 100 ops) of writes to 0xF0-0xF3 with every byte value and external setters with f32 values from exact thresholds b/100, one ulp around them, [0,5], out-of-range, NaN/inf and raw bit patterns; reference model checked after every operation; thorough: all 2^32 f32 bit patterns through the three voltage setters (clamping rule + comparator); non-trivial = history with a UIO direction change, an ICR write selecting a source and at least one comparator crossing; distinct by hash",
     );
-    ev.assumptions.push("comparator bit unconstrained when |input - b/100| <= 1e-6 and b/100 is not exactly representable; effect of a UOR write on the three UIO status bits and clearing of interrupt flags are not constrained".into());
+    ev.assumptions.push("comparator = (stored input > DAC voltage as reported by the board), exact; effect of a UOR write on the three UIO status bits and clearing of interrupt flags are not constrained".into());
     if let Some(path) = &ctx.replay {
         let doc: serde_json::Value = serde_json::from_str(&std::fs::read_to_string(path).expect("replay")).expect("json");
         let c: History = serde_json::from_value(doc["case"].clone()).expect("case");
@@ -323,7 +315,7 @@ pub fn run(ctx: &Ctx) -> Evidence {
             e.evaluations += 1;
             *e.classes.entry("operations".into()).or_insert(0) += st.ops;
             *e.classes.entry("expected-interrupt-raises".into()).or_insert(0) += st.raises;
-            *e.classes.entry("comparator-evaluations-in-unconstrained-band".into()).or_insert(0) += st.unconstrained_comparator;
+            *e.classes.entry("comparator-evaluations-exactly-on-the-diagonal(input == DAC voltage)".into()).or_insert(0) += st.unconstrained_comparator;
             if st.dir_change && st.icr_source && st.comp_cross {
                 e.nontrivial(&serde_json::to_string(c).unwrap());
             }
@@ -368,8 +360,7 @@ pub fn run(ctx: &Ctx) -> Evidence {
                 b.set_analog_input2(0.0);
                 b.set_temp(v);
                 let ok2 = *b.temp() == exp && (b.dasr().bits() & 0x10 != 0) == c2;
-                let near = |th: f32| (exp - th).abs() <= 1e-6;
-                let okc = (near(1.23) || c1 == (exp > 1.23)) && (c2 == (exp > 2.0));
+                let okc = (c1 == (exp > b.analog_outputs()[0])) && (c2 == (exp > b.analog_outputs()[1]));
                 if !(ok1 && ok2 && okc) && bad.is_none() {
                     bad = Some(format!("bits {:#010x} ({:?}): stored {:?}/{:?}, expected {}; comparator bits {}/{}", bits, v, b.analog_inputs(), b.temp(), exp, c1, c2));
                 }
